@@ -499,6 +499,43 @@ func (w *world) exec(op string) string {
 			return "panic " + w.suffix("")
 		}
 		return w.suffix("")
+	case "usel":
+		// the owner of the run service hooks a channel of its own into the service loop, after Start(),
+		// under a name of its choice (also one of the built-in names: "timer", "event", "sheduler"), from
+		// the loop itself or from a foreign goroutine; the selector must be served on the loop and the
+		// timers must go on firing there
+		by, _ := hx.KV(ws, "by")
+		if !w.rs || (by != "foreign" && by != "owner") {
+			return "bad-op"
+		}
+		name, _ := hx.KV(ws, "name")
+		ch := make(chan func(), 4)
+		sel := w.srv.GetSelector()
+		add := func() {
+			sel.AddSelector(name, sche.NewFuncSelector(reflect.ValueOf(ch),
+				func(v reflect.Value, recvOk bool) {
+					if recvOk {
+						v.Interface().(func())()
+					}
+				}))
+		}
+		if by == "owner" {
+			w.post(add)
+			synctest.Wait()
+		} else {
+			add()
+		}
+		served := 0
+		ch <- func() {
+			served = 1
+			if goid() != w.owner {
+				w.mu.Lock()
+				w.offLoop = true
+				w.mu.Unlock()
+			}
+		}
+		synctest.Wait()
+		return fmt.Sprintf("served=%d ", served) + w.suffix("")
 	case "script":
 		n, ok := kvNat(ws, "n")
 		if !ok {
@@ -632,6 +669,17 @@ func (g *gen) reset(rs bool) {
 	g.run(op)
 }
 
+// usel: a user selector joins the loop of the run service in the middle of the case
+func (g *gen) usel() {
+	name := []string{"timer", "timer", "event", "sheduler", "c14probe", "", "mine", "mine"}[g.h.R.Intn(8)]
+	by := []string{"owner", "foreign"}[g.h.R.Intn(2)]
+	g.h.Count("op.usel")
+	if name == "timer" || name == "event" || name == "sheduler" {
+		g.h.Count("op.usel.built-in-name")
+	}
+	g.run(fmt.Sprintf("usel name=%s by=%v", name, by))
+}
+
 func (g *gen) someId() int {
 	r := g.h.R
 	switch r.Intn(10) {
@@ -731,6 +779,8 @@ func (g *gen) randomOps(rs bool, n int) {
 		case x < 64 && r.Intn(4) == 0:
 			g.h.Count("op.stop")
 			g.run("stop")
+		case x < 67 && rs:
+			g.usel()
 		default:
 			if rs {
 				g.h.Count("op.adv")
@@ -746,6 +796,9 @@ func (g *gen) randomOps(rs bool, n int) {
 func (g *gen) caseRandom(rs bool) {
 	g.reset(rs)
 	g.scripts()
+	if rs && g.h.R.Intn(3) == 0 {
+		g.usel()
+	}
 	g.randomOps(rs, 8+g.h.R.Intn(30))
 	// quiesce: let everything that is due fire and drain it
 	g.run(fmt.Sprintf("adv d=%d", g.advPick(false)))
@@ -911,6 +964,9 @@ func (g *gen) caseBusyStop() {
 	n := 1 + r.Intn(5)
 	for i := 0; i < n; i++ {
 		g.mk([]string{"after", "add"}[r.Intn(2)], 1+r.Intn(4), r.Intn(6))
+	}
+	if r.Intn(3) == 0 {
+		g.usel() // a user selector joins the loop while the timers are armed
 	}
 	g.run("block")
 	g.run(fmt.Sprintf("adv d=%d", 1+r.Intn(6)))
